@@ -2,9 +2,11 @@
    Property theorems only: each is closed by [exact] of a lemma of
    Proofs.LiftTheorems / Proofs.LiftTotal, followed by Print Assumptions.
    [lift] is the mirror of build_basic_blocks (Model.Lift); [path], [reachable],
-   [dominates], [nesting], [graph_items], [parser_shaped] are Spec.CfgSpec. *)
+   [dominates], [nesting], [graph_items], [parser_shaped] are Spec.CfgSpec;
+   [desugared_shape] is Proofs.LiftTotalFlat. *)
 From stdpp Require Import list.
-Require Import Model.Lift Spec.CfgSpec Proofs.LiftTheorems Proofs.LiftTotal Proofs.LiftComplexity.
+Require Import Model.Lift Spec.CfgSpec Proofs.LiftTheorems Proofs.LiftTotal Proofs.LiftComplexity Proofs.LiftTotalFlat.
+Require Model.Ast Model.Ir Model.LiftFull Proofs.MirrorsShape.
 Import Base(outcome, Ok, Panic).
 
 (* block 0 is the entry (a block's index is its position) and has no predecessor *)
@@ -95,10 +97,34 @@ Proof. exact every_item_exactly_once. Qed.
 Print Assumptions C12_every_item_exactly_once.
 
 (* neither assert! of lifting.rs nor any NonEmptyVec indexing fails on a body
-   the parser can produce *)
-Theorem C12_lift_never_panics : forall body, parser_shaped body -> exists g, lift body = Ok g.
-Proof. exact lift_never_panics. Qed.
+   the parser + desugarer can produce.
+   Third audit: the hypothesis used to be Spec.CfgSpec.parser_shaped (an
+   initialisation block holds only leaves), which is FALSE for real desugared
+   template bodies: remove_tuples_from_statement / the anonymous-component pass put
+   a Block of substitutions into an InitializationBlock (`var (a, b) = (1, 2);`,
+   `var x = A()(1);`).  [desugared_shape] (Proofs.LiftTotalFlat: the body is a
+   block; an entry of an initialisation block is [flat] - leaves, blocks and
+   initialisation blocks of flat statements, no `while` / `if`) is the shape they do
+   have; it contains parser_shaped (C12_parser_shaped_is_desugared_shape).  The
+   check EVALUATES it on every real desugared body of its template stage through the
+   decision of C12_desugared_shape_decided (lib/props/C12.py,
+   coverage hypothesis_desugared_shape); an unmet hypothesis is a violation. *)
+Theorem C12_lift_never_panics : forall body, desugared_shape body -> exists g, lift body = Ok g.
+Proof. exact lift_never_panics_desugared. Qed.
 Print Assumptions C12_lift_never_panics.
+
+Theorem C12_parser_shaped_is_desugared_shape : forall body, parser_shaped body -> desugared_shape body.
+Proof. exact parser_shaped_desugared_shape. Qed.
+Print Assumptions C12_parser_shaped_is_desugared_shape.
+
+(* how the hypothesis is decided on a real syntax tree: the two booleans the
+   extracted model driver evaluates (Model.LiftFull.is_block, ast_init_flat) give
+   desugared_shape of the skeleton, whatever function of the metas names the leaves *)
+Theorem C12_desugared_shape_decided : forall (key : Model.Ir.meta -> nat) (body : Model.Ast.statement),
+  Model.LiftFull.is_block body = true -> Model.LiftFull.ast_init_flat body = true ->
+  desugared_shape (Model.LiftFull.skel key body).
+Proof. exact Proofs.MirrorsShape.skel_desugared_shape. Qed.
+Print Assumptions C12_desugared_shape_decided.
 
 (* non-vacuity: the `while` test of the repository lifts to its four blocks; a
    body that is not a block and a loop inside an initialisation block hit the
@@ -113,3 +139,14 @@ Example C12_witnesses :
   lift (SBlock [SInit [SWhile 1 (SLeaf 2 false)]]) = Panic site_init_nonempty /\
   parser_shaped (SBlock [SIf 1 (SLeaf 2 false) None]).
 Proof. vm_compute. repeat split; try reflexivity. by eexists. Qed.
+
+(* `var (a, b) = (1, 2);` after the desugarer: a block inside an initialisation
+   block - of desugared shape, not parser shaped, and it lifts *)
+Example C12_desugared_shape_witness :
+  let body := SBlock [SInit [SLeaf 1 false; SLeaf 2 false; SBlock [SLeaf 3 false; SLeaf 4 false]]; SLeaf 5 true] in
+  desugared_shape body /\ ~ parser_shaped body /\
+  lift body = Ok [Block 0 0 [ILeaf 1; ILeaf 2; ILeaf 3; ILeaf 4; ILeaf 5] [] []].
+Proof.
+  split; [split; [by eexists|reflexivity]|]. split; [|reflexivity].
+  intros [_ H]. vm_compute in H. discriminate.
+Qed.
